@@ -347,7 +347,7 @@ Section StepGood.
     induction steps as [|s l IH]; intros H; cbn [flat_map]; [apply pw_nil|].
     cbn [map] in H. inversion H as [|? ? Hs Hl]; subst.
     apply pw_app.
-    - destruct s; cbn [step_tokens]; try apply pw_single. apply pw_nil.
+    - destruct s; cbn [step_tokens]; try apply pw_single; try apply pw_nil; unfold idx_token; destruct (Z.ltb _ _); first [apply pw_single|apply pw_nil].
     - apply IH; exact Hl.
     - intros x y Hx Hy. apply in_flat_map in Hy as (s' & Hs' & Hy).
       unfold tdisj. eapply rdisj_inside; [|apply step_tokens_in; exact Hx|apply step_tokens_in; exact Hy].
